@@ -396,7 +396,7 @@ func (g *rpcGen) op(t *rapid.T) Op {
 		}
 		return Op{K: "unregister", S: s, Ref: genRefTo(t, "reg", g.nsess, 40)}
 	case 2:
-		if g.profile != "deterministic" && g.profile != "hostile" {
+		if g.profile != "hostile" {
 			// next chunk of a progressive call invocation that is still open
 			var streaming []*gCall
 			for _, c := range g.calls {
@@ -436,7 +436,7 @@ func (g *rpcGen) op(t *rapid.T) Op {
 				r.rr++
 			}
 			gc := &gCall{caller: s, callN: g.nCalls[s], callee: callee, invN: g.nInvs[callee], live: true, uri: op.URI}
-			if g.profile != "deterministic" && g.profile != "hostile" && pct(t, 10, "streamcall") {
+			if g.profile != "hostile" && pct(t, 10, "streamcall") {
 				// first chunk of a progressive call invocation
 				op.Opts = append(op.Opts, KV{"progress", VBool(true)})
 				gc.streaming = true
@@ -567,6 +567,9 @@ func genRPC(t *rapid.T, profile string) *Case {
 	maxOps := 35
 	ops := rapid.SliceOfN(rapid.Custom(func(t *rapid.T) Op { return g.op(t) }), 1, maxOps).Draw(t, "ops")
 	c.Ops = ops
+	if profile == "C03" && pct(t, 12, "rotation") {
+		appendRotation(t, c)
+	}
 	if profile == "C02" && pct(t, 12, "slowcaller") {
 		appendSlowCaller(t, c)
 	} else if profile == "C02" && pct(t, 8, "blockedcallee") {
@@ -649,4 +652,41 @@ func appendSlowCaller(t *rapid.T, c *Case) {
 		Op{K: "advance", Ns: pick(t, []int64{1e6, 1e9, 70e9}, "slowa")},
 		Op{K: "advance", Ns: 70e9},
 		Op{K: "publish", S: other, URI: "verif.fill", Args: []V{VStr("after")}})
+}
+
+
+// appendRotation adds k callees sharing one round-robin (or other shared
+// policy) registration and a caller: a number of calls around a whole multiple
+// of k, then one member leaves - at the wrap-around point among others - and
+// the rotation goes on.
+func appendRotation(t *rapid.T, c *Case) {
+	n := len(c.Sess)
+	k := 3 + uni(t, 2, "rotk")
+	for i := 0; i <= k; i++ {
+		c.Sess = append(c.Sess, SessCfg{Realm: c.Sess[0].Realm, Roles: fullRoles()})
+	}
+	caller := n + k
+	pol := pick(t, []string{"roundrobin", "roundrobin", "roundrobin", "first", "last", "random"}, "rotpol")
+	for i := 0; i < k; i++ {
+		c.Ops = append(c.Ops, Op{K: "register", S: n + i, URI: "verif.rr", Opts: []KV{{"invoke", VStr(pol)}}})
+	}
+	m := pick(t, []int{k - 1, k, k, k + 1, 2 * k, 2*k - 1}, "rotcalls")
+	for i := 0; i < m; i++ {
+		c.Ops = append(c.Ops, Op{K: "call", S: caller, URI: "verif.rr", Args: []V{VInt(i)}})
+		if pct(t, 40, "rotyield") {
+			c.Ops = append(c.Ops, Op{K: "yield", S: n + i%k, Ref: "inv:-1:-1", Args: []V{VInt(i)}})
+		}
+	}
+	leaver := n + pick(t, []int{0, k / 2, k - 1}, "rotleaver")
+	switch uni(t, 3, "rotleave") {
+	case 0:
+		c.Ops = append(c.Ops, Op{K: "unregister", S: leaver, Ref: "reg:-1:-1"})
+	case 1:
+		c.Ops = append(c.Ops, Op{K: "goodbye", S: leaver})
+	default:
+		c.Ops = append(c.Ops, Op{K: "drop", S: leaver})
+	}
+	for i := 0; i < 1+uni(t, k+1, "rotafter"); i++ {
+		c.Ops = append(c.Ops, Op{K: "call", S: caller, URI: "verif.rr", Args: []V{VInt(100 + i)}})
+	}
 }
